@@ -239,4 +239,32 @@ func configure(g *gen) {
 			{Callee: "_.SetHandlers", Stmts: []string{"hchain := %2", "ctx := { %1 with handlers := (%2).map (fun _ => ()) }"}},
 			{Callee: "_.Next", Stmts: []string{"let %t := env.next s %1 hchain", "s := %t.1", "ctx := %t.2.1", "if let some p := %t.2.2 then return " + hRet}},
 		}})
+	// pkg/handlers: the two gates.  The context / request is an event log resp. a small record; what
+	// `Request.BasicAuth()` parsed out of the Authorization header is an input.
+	gctx := T{"opaque", "List GoRt.GEv"}
+	add(FnSpec{Pkg: "pkg/handlers", Func: "HTTPBasicAuth", Lean: "HTTPBasicAuth", Inner: true,
+		Extra: []string{"(cred : Bytes × Bytes × Bool)"}, MutParams: []string{"c"}, RetExtra: []string{"c"}, RetExtraT: []string{"List GoRt.GEv"},
+		Types: map[string]T{"*rux.Context": gctx, "map[string]string": {"opaque", "List (Bytes × Bytes)"}},
+		Exts: []Ext{
+			{Callee: "_.Req.BasicAuth", Values: []string{"cred.1", "cred.2.1", "cred.2.2"}, Ts: []T{tStr, tStr, tBool}},
+			{Callee: "_.SetHeader", Stmts: []string{"c := %1 ++ [GoRt.GEv.header %2 %3]"}},
+			{Callee: "_.AbortWithStatus", Stmts: []string{"c := %1 ++ [GoRt.GEv.abort %2]"}},
+			{Callee: "_.Set", Stmts: []string{"c := %1 ++ [GoRt.GEv.set %2 %3]"}},
+			{Callee: "accounts[]", Values: []string{"(GoRt.mapGet accounts %1).1", "(GoRt.mapGet accounts %1).2"}, Ts: []T{tStr, tBool}},
+		}})
+	oreq := T{"opaque", "GoRt.OReq"}
+	add(FnSpec{Pkg: "pkg/handlers", Func: "HTTPMethodOverrideHandler", Lean: "HTTPMethodOverrideHandler", Inner: true,
+		MutParams: []string{"r"}, Prologue: []string{"let mut served : Option GoRt.OReq := none"},
+		RetExtra: []string{"served"}, RetExtraT: []string{"Option GoRt.OReq"},
+		Types: map[string]T{"*http.Request": oreq, "http.Handler": {"opaque", "Unit"}, "http.ResponseWriter": {"opaque", "Unit"}},
+		Exts: []Ext{
+			{Callee: "_.Method", Value: "(%1).method", T: tStr},
+			{Callee: "_.Method=", Stmts: []string{"r := { %1 with method := %2 }"}},
+			{Callee: "_.FormValue", Value: "((%1).formValue %2)", T: tStr},
+			{Callee: "_.Header.Get", Value: "((%1).header %2)", T: tStr},
+			{Callee: "_.Context", Value: "()", T: T{"opaque", "Unit"}},
+			{Callee: "context.WithValue", Value: "%3", T: tStr},
+			{Callee: "_.WithContext", Value: "({ %1 with original := some %2 } : GoRt.OReq)", T: oreq},
+			{Callee: "h.ServeHTTP", Stmts: []string{"served := some %2"}},
+		}})
 }
